@@ -23,4 +23,3 @@ func vBool(b bool) string {
 	}
 	return "false"
 }
-
